@@ -31,7 +31,7 @@ ANCHORS = [
     "raggedshape.py::ViewBase.ravel_multi_index", "raggedshape.py::ViewBase.unravel_multi_index", "raggedshape.py::ViewBase.index_array",
     "raggedshape.py::RaggedShape.size",
 ]
-CTORS = ["rows", "from_ragged", "typedrows_dtype", "tuplerows", "matrix2d_dtype", "pyrows", "mixedrows", "flat", "flat_nplens", "flatlist", "shape_tuple", "raggedshape", "flat_strided", "matrix"]
+CTORS = ["rows", "from_ragged", "typedrows_dtype", "rows_views", "shape_of_selection", "tuplerows", "matrix2d_dtype", "pyrows", "mixedrows", "flat", "flat_nplens", "flatlist", "shape_tuple", "raggedshape", "flat_strided", "matrix"]
 FLOOR_TAGS = ["ctor:" + c for c in CTORS] + ["kind:b", "kind:i", "kind:u", "kind:f", "v:small", "v:extreme", "v:nonfinite",
                                              "reject", "saveload", "matrix-roundtrip", "order:F", "order:T", "order:strided", "norows", "allempty", "e-first", "e-last", "e-mid", "e-consec", "e-none", "big-repr", "lensdtype:narrow", "lensdtype:sum-overflows"]
 FLOOR_MONITORS = ["c01:readback", "c01:geometry", "c01:reject", "c01:result-independent", "inv:ragged"]
@@ -84,6 +84,30 @@ def build(case, flat, rows):
                      (np.dtype(d).kind != "f" or bool(np.all(np.abs(r.astype(np.float64)) < 2 ** 53)))]
             typed.append(r.astype(cands[(len(r) + i) % len(cands)]) if cands else r.copy())
         return RA(typed, dtype=dt), True
+    if ctor == "rows_views":
+        # the rows are views of ONE caller buffer: every second cell of interleaved stretches, reversed stretches -- neighbours in memory, not contiguous
+        k_ = 2 + (len(lens) % 2)
+        base_ = np.zeros(k_ * (sum(lens) + len(lens)) + k_, dtype=dt)
+        views_, pos_ = [], 0
+        for i, r in enumerate(rows):
+            if i % 3 == 2:
+                seg = base_[pos_:pos_ + len(r)][::-1]
+                pos_ += len(r)
+            else:
+                seg = base_[pos_:pos_ + k_ * len(r):k_]
+                pos_ += len(r) + 1          # the next row starts inside the stretch this one strides over
+            seg[...] = r
+            views_.append(seg)
+        for i, r in enumerate(rows):         # (later rows may have written into cells an earlier strided row also covers: restore in order)
+            views_[i][...] = r
+        ok_ = all(np.array_equal(v_, r, equal_nan=(dt.kind == "f")) if dt.kind == "f" else np.array_equal(v_, r) for v_, r in zip(views_, rows))
+        return RA(views_ if ok_ else [r.copy() for r in rows], dtype=dt), True
+    if ctor == "shape_of_selection":
+        # the row lengths are taken from another array's .shape -- an array that is a still unread, permuted row selection
+        n_ = len(lens)
+        other = RA(np.zeros(sum(lens) + 3, dtype=np.int8), list(lens[::-1]) + [3])          # the wanted rows in reverse order, and one more
+        sel_ = other[list(range(n_ - 1, -1, -1))] if n_ else RA(np.zeros(0, dtype=np.int8), [])          # rows picked back into order: the geometry is that of a view into `other`
+        return RA(flat.copy(), sel_.shape), True
     if ctor == "tuplerows":        # the rows in a tuple instead of a list
         return RA(tuple(r.copy() for r in rows), dtype=dt), True
     if ctor == "pyrows":
@@ -602,7 +626,13 @@ def const_case(rng, tier, s, form):
         return c if gen.FORCED["used"] else None
     out = []
     dts = ["int64", "uint8", "float64", "bool", "int32", "int16", "float32", "uint64"]
-    for k, ctor in enumerate(CTORS[:-1]):
+    ctors_ = CTORS[:-1]
+    if not gen.FORCED.get("novel"):
+        if form not in ("rows", "emptyrun", "nonempty"):
+            c = random_case(rng, tier)
+            return c if gen.FORCED["used"] else None
+        ctors_ = ["rows", "pyrows", "flat"]          # (capacity boundaries: the forms that go through python lists of rows, and the plain one)
+    for k, ctor in enumerate(ctors_):
         gen.FORCED["used"] = 0
         lens, _ = gen.length_vector(rng, tier)          # (its own row lengths of that size and form for every constructor)
         dtype = dts[(k + s) % len(dts)]
